@@ -316,7 +316,8 @@ def run(ck: Check):
     results = run_cases(ck, progs)
     terms = [case_term(r) for r in results]
     bad = ck.coq_eval("td", HEADER, terms, "td_case", "check_td", shard=300)
-    ck.run_fixed({"rejected_add_registers_no_callback": "C01:invoked-unregistered"})
+    ck.run_fixed({"rejected_add_registers_no_callback": "C01:invoked-unregistered",
+                  "second_half_runs_at_the_outer_teardown": "C01:not-invoked"})
     sigs, n_fail = {}, 0
     for r in results:
         for sig, what in oracle(r):
